@@ -231,7 +231,7 @@ pub fn run(ctx: &Ctx, model: &mut Model, rep: &mut Report) {
         }
     }
     // trailing whitespace that is content: code lines ending in spaces / a tab, front matter, a no-break space
-    for t in ["```\nfirst line  \nsecond\t\n   \n```\n\nafter\n", "---\ntitle: x  \n---\n\n# T\n\ntext\n", "para ending in a no-break space\u{a0}\n\nnext\n", "- item\n\n  ```\n  code  \n  ```\n"] {
+    for t in ["```\nfirst line  \nsecond\t\n   \n```\n\nafter\n", "---\ntitle: x  \n---\n\n# T\n\ntext\n", "para ending in a no-break space\u{a0}\n\nnext\n", "- item\n\n  ```\n  code  \n  ```\n", "> ```\n> code  \n> x\t\n> ```\n>\n> quoted paragraph\n"] {
         rep.evaluations += 1;
         rep.count("trailing_whitespace_texts");
         if let Some(what) = check_doc("a", t) {
